@@ -285,7 +285,7 @@ func cascade(s string) cascadeResult {
 }
 
 var c08Quick = []Mix{
-	{Gen: "corpus"}, {Gen: "trunc"},
+	{Gen: "corpus"}, {Gen: "trunc"}, {Gen: "bytes"},
 	{Gen: "atoms", Dict: "sqlcore", K: 3},
 	{Gen: "atoms", Dict: "sqlext", K: 2},
 	{Gen: "seq", Dict: "sqlext", N: 300000},
@@ -295,7 +295,7 @@ var c08Quick = []Mix{
 	{Gen: "g03", N: 150000},
 }
 var c08Thorough = []Mix{
-	{Gen: "corpus"}, {Gen: "trunc"},
+	{Gen: "corpus"}, {Gen: "trunc"}, {Gen: "bytes"},
 	{Gen: "atoms", Dict: "sqlcore", K: 4},
 	{Gen: "atoms", Dict: "sqlext", K: 3},
 	{Gen: "atoms", Dict: "sqlmid", K: 5},
